@@ -1,2 +1,563 @@
+//! C13 – Parser offsets always describe where the remainder sits in the original string
+//!        (invariant monitor + error-offset monitor after every step of every history)
+//! C14 – Parser operations transform the remainder exactly like the free string functions;
+//!        split protocols (reference-model monitor over the same histories + pure protocols)
 use crate::common::*;
-pub fn run(_cfg: &Cfg, _m: bool) -> (&'static str, Report, String, String) { ("C13", Report::new(), String::new(), String::new()) }
+use konst::parsing::{ErrorKind, ParseDirection, ParseError};
+use konst::string as kstr;
+use konst::Parser;
+
+#[derive(Clone, Copy, Debug, PartialEq)]
+enum Side {
+    Start,
+    End,
+    Both,
+}
+
+#[derive(Clone, Copy, Debug, PartialEq)]
+enum Op {
+    Trim,
+    TrimStart,
+    TrimEnd,
+    TrimMatches(&'static str),
+    TrimStartMatches(&'static str),
+    TrimEndMatches(&'static str),
+    TrimEndMatchesC(char),
+    TrimMatchesC(char),
+    StripPrefix(&'static str),
+    StripPrefixC(char),
+    StripSuffix(&'static str),
+    StripSuffixC(char),
+    FindSkip(&'static str),
+    FindSkipC(char),
+    RFindSkip(&'static str),
+    RFindSkipC(char),
+    Split(&'static str),
+    SplitC(char),
+    RSplit(&'static str),
+    SplitTerminator(&'static str),
+    RSplitTerminator(&'static str),
+    SplitKeep(&'static str),
+    Skip(usize),
+    SkipBack(usize),
+    ParseU8,
+    ParseI8,
+    ParseBool,
+}
+
+const OPS: &[Op] = &[
+    Op::Trim,
+    Op::TrimStart,
+    Op::TrimEnd,
+    Op::TrimMatches(" "),
+    Op::TrimMatches("aa"),
+    Op::TrimMatches("a,a"),
+    Op::TrimMatchesC('a'),
+    Op::TrimStartMatches("a"),
+    Op::TrimStartMatches("ñ"),
+    Op::TrimEndMatches("a"),
+    Op::TrimEndMatches(",a"),
+    Op::TrimEndMatchesC(','),
+    Op::StripPrefix("a"),
+    Op::StripPrefix("a,"),
+    Op::StripPrefixC('ñ'),
+    Op::StripSuffix("a"),
+    Op::StripSuffix(","),
+    Op::StripSuffixC('ñ'),
+    Op::FindSkip(","),
+    Op::FindSkip("a,"),
+    Op::FindSkipC('ñ'),
+    Op::RFindSkip(","),
+    Op::RFindSkipC('a'),
+    Op::Split(","),
+    Op::SplitC('a'),
+    Op::RSplit(","),
+    Op::SplitTerminator(","),
+    Op::RSplitTerminator(","),
+    Op::SplitKeep(","),
+    Op::Skip(1),
+    Op::Skip(2),
+    Op::SkipBack(1),
+    Op::SkipBack(3),
+    Op::ParseU8,
+    Op::ParseI8,
+    Op::ParseBool,
+];
+
+/// what the real Parser did
+enum Got<'a> {
+    Ok(Parser<'a>, Option<String>), // new parser, value/piece handed out (rendered)
+    Err(ParseError<'a>),
+}
+
+fn apply<'a>(p: Parser<'a>, op: Op) -> Got<'a> {
+    fn piece<'a>(r: Result<(&'a str, Parser<'a>), ParseError<'a>>) -> Got<'a> {
+        match r {
+            Ok((s, p)) => Got::Ok(p, Some(format!("{:?}", s))),
+            Err(e) => Got::Err(e),
+        }
+    }
+    fn plain<'a>(r: Result<Parser<'a>, ParseError<'a>>) -> Got<'a> {
+        match r {
+            Ok(p) => Got::Ok(p, None),
+            Err(e) => Got::Err(e),
+        }
+    }
+    match op {
+        Op::Trim => Got::Ok(p.trim(), None),
+        Op::TrimStart => Got::Ok(p.trim_start(), None),
+        Op::TrimEnd => Got::Ok(p.trim_end(), None),
+        Op::TrimMatches(n) => Got::Ok(p.trim_matches(n), None),
+        Op::TrimMatchesC(n) => Got::Ok(p.trim_matches(n), None),
+        Op::TrimStartMatches(n) => Got::Ok(p.trim_start_matches(n), None),
+        Op::TrimEndMatches(n) => Got::Ok(p.trim_end_matches(n), None),
+        Op::TrimEndMatchesC(n) => Got::Ok(p.trim_end_matches(n), None),
+        Op::StripPrefix(n) => plain(p.strip_prefix(n)),
+        Op::StripPrefixC(n) => plain(p.strip_prefix(n)),
+        Op::StripSuffix(n) => plain(p.strip_suffix(n)),
+        Op::StripSuffixC(n) => plain(p.strip_suffix(n)),
+        Op::FindSkip(n) => plain(p.find_skip(n)),
+        Op::FindSkipC(n) => plain(p.find_skip(n)),
+        Op::RFindSkip(n) => plain(p.rfind_skip(n)),
+        Op::RFindSkipC(n) => plain(p.rfind_skip(n)),
+        Op::Split(d) => piece(p.split(d)),
+        Op::SplitC(d) => piece(p.split(d)),
+        Op::RSplit(d) => piece(p.rsplit(d)),
+        Op::SplitTerminator(d) => piece(p.split_terminator(d)),
+        Op::RSplitTerminator(d) => piece(p.rsplit_terminator(d)),
+        Op::SplitKeep(d) => piece(p.split_keep(d)),
+        Op::Skip(n) => Got::Ok(p.skip(n), None),
+        Op::SkipBack(n) => Got::Ok(p.skip_back(n), None),
+        Op::ParseU8 => match p.parse_u8() {
+            Ok((v, p)) => Got::Ok(p, Some(format!("{}", v))),
+            Err(e) => Got::Err(e),
+        },
+        Op::ParseI8 => match p.parse_i8() {
+            Ok((v, p)) => Got::Ok(p, Some(format!("{}", v))),
+            Err(e) => Got::Err(e),
+        },
+        Op::ParseBool => match p.parse_bool() {
+            Ok((v, p)) => Got::Ok(p, Some(format!("{}", v))),
+            Err(e) => Got::Err(e),
+        },
+    }
+}
+
+fn side(op: Op) -> Side {
+    match op {
+        Op::Trim | Op::TrimMatches(_) | Op::TrimMatchesC(_) => Side::Both,
+        Op::TrimEnd | Op::TrimEndMatches(_) | Op::TrimEndMatchesC(_) | Op::StripSuffix(_) | Op::StripSuffixC(_) | Op::RFindSkip(_) | Op::RFindSkipC(_) | Op::RSplit(_) | Op::RSplitTerminator(_) | Op::SkipBack(_) => Side::End,
+        _ => Side::Start,
+    }
+}
+
+fn is_split_family(op: Op) -> bool {
+    matches!(op, Op::Split(_) | Op::SplitC(_) | Op::RSplit(_) | Op::SplitTerminator(_) | Op::RSplitTerminator(_) | Op::SplitKeep(_))
+}
+
+/// The C14 reference: result of `op` on remainder `rem`, computed with konst's *free* string
+/// functions (and the std-based prefix-parse reference of C12).
+/// Returns (must_succeed, Some((new_remainder, piece)) if it can succeed, sets_exhausted)
+struct Expect<'a> {
+    /// Some(..) = what a successful step must produce; None = a successful step is impossible
+    ok: Option<(&'a str, Option<String>)>,
+    /// does a successful step hand out the last split piece (model's `exhausted` becomes true)?
+    exhausts: bool,
+}
+
+fn cstr(c: char, buf: &mut [u8; 4]) -> &str {
+    c.encode_utf8(buf)
+}
+
+fn expect<'a>(rem: &'a str, op: Op) -> Expect<'a> {
+    let mut b = [0u8; 4];
+    let some = |r: &'a str| Expect { ok: Some((r, None)), exhausts: false };
+    let opt = |r: Option<&'a str>| Expect { ok: r.map(|x| (x, None)), exhausts: false };
+    match op {
+        Op::Trim => some(kstr::trim(rem)),
+        Op::TrimStart => some(kstr::trim_start(rem)),
+        Op::TrimEnd => some(kstr::trim_end(rem)),
+        Op::TrimMatches(n) => some(kstr::trim_matches(rem, n)),
+        Op::TrimMatchesC(n) => some(kstr::trim_matches(rem, n)),
+        Op::TrimStartMatches(n) => some(kstr::trim_start_matches(rem, n)),
+        Op::TrimEndMatches(n) => some(kstr::trim_end_matches(rem, n)),
+        Op::TrimEndMatchesC(n) => some(kstr::trim_end_matches(rem, n)),
+        Op::StripPrefix(n) => opt(kstr::strip_prefix(rem, n)),
+        Op::StripPrefixC(n) => opt(kstr::strip_prefix(rem, n)),
+        Op::StripSuffix(n) => opt(kstr::strip_suffix(rem, n)),
+        Op::StripSuffixC(n) => opt(kstr::strip_suffix(rem, n)),
+        Op::FindSkip(n) => opt(kstr::find_skip(rem, n)),
+        Op::FindSkipC(n) => opt(kstr::find_skip(rem, n)),
+        Op::RFindSkip(n) => opt(kstr::rfind_skip(rem, n)),
+        Op::RFindSkipC(n) => opt(kstr::rfind_skip(rem, n)),
+        Op::Split(_) | Op::SplitC(_) => {
+            let d: &str = match op {
+                Op::Split(d) => d,
+                Op::SplitC(c) => cstr(c, &mut b),
+                _ => unreachable!(),
+            };
+            match kstr::split_once(rem, d) {
+                Some((before, after)) => Expect { ok: Some((after, Some(format!("{:?}", before)))), exhausts: false },
+                None => Expect { ok: Some((&rem[rem.len()..], Some(format!("{:?}", rem)))), exhausts: true },
+            }
+        }
+        Op::RSplit(d) => match kstr::rsplit_once(rem, d) {
+            Some((before, after)) => Expect { ok: Some((before, Some(format!("{:?}", after)))), exhausts: false },
+            None => Expect { ok: Some((&rem[..0], Some(format!("{:?}", rem)))), exhausts: true },
+        },
+        Op::SplitKeep(d) => match kstr::find(rem, d) {
+            Some(pos) => Expect { ok: Some((&rem[pos..], Some(format!("{:?}", &rem[..pos])))), exhausts: false },
+            None => Expect { ok: Some((&rem[rem.len()..], Some(format!("{:?}", rem)))), exhausts: true },
+        },
+        Op::SplitTerminator(d) => match (rem.is_empty(), kstr::split_once(rem, d)) {
+            (false, Some((before, after))) => Expect { ok: Some((after, Some(format!("{:?}", before)))), exhausts: after.is_empty() },
+            _ => Expect { ok: None, exhausts: false },
+        },
+        Op::RSplitTerminator(d) => match (rem.is_empty(), kstr::rsplit_once(rem, d)) {
+            (false, Some((before, after))) => Expect { ok: Some((before, Some(format!("{:?}", after)))), exhausts: before.is_empty() },
+            _ => Expect { ok: None, exhausts: false },
+        },
+        Op::Skip(n) => {
+            let mut k = n.min(rem.len());
+            while !rem.is_char_boundary(k) {
+                k += 1;
+            }
+            some(&rem[k..])
+        }
+        Op::SkipBack(n) => {
+            let mut k = rem.len().saturating_sub(n);
+            while !rem.is_char_boundary(k) {
+                k -= 1;
+            }
+            some(&rem[..k])
+        }
+        Op::ParseU8 => {
+            let r = ref_prefix::<u8>(rem, false);
+            Expect { ok: r.map(|(v, rest)| (rest, Some(format!("{}", v)))), exhausts: false }
+        }
+        Op::ParseI8 => {
+            let r = ref_prefix::<i8>(rem, true);
+            Expect { ok: r.map(|(v, rest)| (rest, Some(format!("{}", v)))), exhausts: false }
+        }
+        Op::ParseBool => {
+            let r = if let Some(x) = rem.strip_prefix("true") {
+                Some((x, "true"))
+            } else if let Some(x) = rem.strip_prefix("false") {
+                Some((x, "false"))
+            } else {
+                None
+            };
+            Expect { ok: r.map(|(rest, v)| (rest, Some(v.to_string()))), exhausts: false }
+        }
+    }
+}
+
+fn ref_prefix<T: std::str::FromStr>(s: &str, signed: bool) -> Option<(T, &str)> {
+    let b = s.as_bytes();
+    let mut i = 0;
+    if signed && b.first() == Some(&b'-') {
+        i = 1;
+    }
+    let ds = i;
+    while i < b.len() && b[i].is_ascii_digit() {
+        i += 1;
+    }
+    if i == ds {
+        return None;
+    }
+    s[..i].parse::<T>().ok().map(|v| (v, &s[i..]))
+}
+
+struct Ctx<'s> {
+    s: &'s str,
+    base: usize,
+    c14: bool,
+    hist: Vec<Op>,
+}
+
+/// C13 invariant monitor on a live parser
+fn invariants(r: &mut Report, cx: &Ctx, p: Parser<'_>) -> bool {
+    let (s, base) = (cx.s, cx.base);
+    let (so, eo) = (p.start_offset(), p.end_offset());
+    let rem = p.remainder();
+    r.ev("invariant");
+    mon_sub_str(r, "Parser::remainder", s, rem);
+    let ok = base <= so
+        && so <= eo
+        && eo <= base + s.len()
+        && s.is_char_boundary(so - base)
+        && s.is_char_boundary(eo - base)
+        && &s[so - base..eo - base] == rem
+        && (rem.as_ptr() as usize == s.as_ptr() as usize + (so - base) || rem.is_empty() && so == eo)
+        && p.len() == rem.len()
+        && p.is_empty() == rem.is_empty();
+    if !ok {
+        r.fail(
+            "C13:offsets-do-not-describe-remainder",
+            "Parser",
+            format!("s={:?} base={} history={:?}", s, base, cx.hist),
+            format!("start_offset={} end_offset={} remainder={:?}@{:?} len={} is_empty={}", so, eo, rem, off_in(s, rem), p.len(), p.is_empty()),
+            format!("remainder == s[start-base..end-base], offsets on char boundaries within {}..={}", base, base + s.len()),
+        );
+    }
+    ok
+}
+
+fn dir_name(d: ParseDirection) -> &'static str {
+    match d {
+        ParseDirection::FromStart => "FromStart",
+        ParseDirection::FromEnd => "FromEnd",
+        ParseDirection::FromBoth => "FromBoth",
+    }
+}
+
+/// one step: returns the new parser (and new exhausted flag) when the op succeeded
+fn step<'a>(r: &mut Report, cx: &mut Ctx<'a>, p: Parser<'a>, exhausted: bool, op: Op) -> Option<(Parser<'a>, bool)> {
+    cx.hist.push(op);
+    let rem = p.remainder();
+    let got = apply(p, op);
+    r.ev(match (&got, is_split_family(op)) {
+        (Got::Ok(..), true) => "step:split-family:Ok",
+        (Got::Err(..), true) => "step:split-family:Err",
+        (Got::Ok(..), false) => "step:other:Ok",
+        (Got::Err(..), false) => "step:other:Err",
+    });
+    let mut out = None;
+    match got {
+        Got::Ok(np, val) => {
+            let inv_ok = if !cx.c14 { invariants(r, cx, np) } else { true };
+            let mut nexh = exhausted;
+            if cx.c14 {
+                let e = expect(rem, op);
+                match &e.ok {
+                    None => r.fail(
+                        "C14:succeeded-where-free-function-finds-nothing",
+                        "Parser",
+                        format!("s={:?} history={:?} prev_remainder={:?}", cx.s, cx.hist, rem),
+                        format!("Ok(remainder={:?}, value={:?})", np.remainder(), val),
+                        "Err".into(),
+                    ),
+                    Some((wrem, wval)) => {
+                        if np.remainder() != *wrem || (!wrem.is_empty() && off_in(cx.s, np.remainder()) != off_in(cx.s, wrem)) || (wval.is_some() && val != *wval) {
+                            r.fail(
+                                "C14:remainder-differs-from-free-function",
+                                "Parser",
+                                format!("s={:?} history={:?} prev_remainder={:?}", cx.s, cx.hist, rem),
+                                format!("remainder={:?}@{:?} value={:?}", np.remainder(), off_in(cx.s, np.remainder()), val),
+                                format!("remainder={:?}@{:?} value={:?}", wrem, off_in(cx.s, wrem), wval),
+                            );
+                        }
+                        if is_split_family(op) && exhausted {
+                            // model: the last piece was already handed out -> a split-family op must fail
+                            r.fail(
+                                "C14:split-after-exhaustion-succeeded",
+                                "Parser",
+                                format!("s={:?} history={:?} prev_remainder={:?}", cx.s, cx.hist, rem),
+                                format!("Ok(value={:?})", val),
+                                "Err(SplitExhausted)".into(),
+                            );
+                        }
+                        nexh = exhausted || e.exhausts;
+                    }
+                }
+            } else if is_split_family(op) {
+                nexh = exhausted || expect(rem, op).exhausts;
+            }
+            if inv_ok {
+                out = Some((np, nexh));
+            }
+        }
+        Got::Err(e) => {
+            if !cx.c14 {
+                // C13 error monitor
+                let sd = side(op);
+                let (woff, wdir) = match sd {
+                    Side::Start | Side::Both => (p.start_offset(), ParseDirection::FromStart),
+                    Side::End => (p.end_offset(), ParseDirection::FromEnd),
+                };
+                r.ev("error-offset");
+                if e.offset() != woff || e.error_direction() != wdir {
+                    r.fail(
+                        "C13:error-offset-or-direction",
+                        "ParseError",
+                        format!("s={:?} base={} history={:?} parser(start={}, end={})", cx.s, cx.base, cx.hist, p.start_offset(), p.end_offset()),
+                        format!("offset={} direction={}", e.offset(), dir_name(e.error_direction())),
+                        format!("offset={} direction={}", woff, dir_name(wdir)),
+                    );
+                }
+            } else {
+                let ex = expect(rem, op);
+                let may_fail = if is_split_family(op) { exhausted || ex.ok.is_none() } else { ex.ok.is_none() };
+                if !may_fail {
+                    r.fail(
+                        "C14:failed-where-free-function-finds-something",
+                        "Parser",
+                        format!("s={:?} history={:?} prev_remainder={:?} model_exhausted={}", cx.s, cx.hist, rem, exhausted),
+                        format!("Err({:?})", e.kind()),
+                        format!("Ok{:?}", ex.ok),
+                    );
+                }
+            }
+        }
+    }
+    cx.hist.pop();
+    out
+}
+
+fn dfs<'a>(r: &mut Report, cx: &mut Ctx<'a>, p: Parser<'a>, exhausted: bool, depth: usize) {
+    for &op in OPS {
+        if let Some((np, ne)) = step(r, cx, p, exhausted, op) {
+            if depth > 1 {
+                dfs(r, cx, np, ne, depth - 1);
+            }
+            if depth == 1 && np.remainder().len() < p.remainder().len() && p.remainder().len() < cx.s.len() {
+                r.nt(&(cx.s, cx.base, &format!("{:?}", cx.hist), format!("{:?}", op)));
+            }
+        }
+    }
+}
+
+/// C14 pure protocols: repeating one split op until it fails
+fn protocols(cfg: &Cfg) -> Report {
+    let alpha = ["a", ",", "ñ"];
+    let ss = strings_upto(&alpha, cfg.by(2, 6, 7));
+    let delims = [",", "a", "ñ", ",,", "a,", ",a,", "ña"];
+    par_for(cfg, ss.len(), |i, r| {
+        let s: &str = &ss[i];
+        for d in delims {
+            macro_rules! proto {
+                ($api:literal, $call:ident, $want:expr, $must_be_exhausted:expr) => {{
+                    let want: Vec<&str> = $want;
+                    let mut got: Vec<&str> = Vec::new();
+                    let mut p = Parser::new(s);
+                    let mut err: Option<ErrorKind> = None;
+                    for _ in 0..40 {
+                        match p.$call(d) {
+                            Ok((x, np)) => {
+                                got.push(x);
+                                p = np;
+                            }
+                            Err(e) => {
+                                err = Some(e.kind());
+                                break;
+                            }
+                        }
+                    }
+                    r.evn(concat!("protocol:", $api), got.len() as u64 + 1);
+                    let again = p.$call(d).is_err();
+                    let kind_ok = !$must_be_exhausted || err == Some(ErrorKind::SplitExhausted);
+                    if got != want || err.is_none() || !again || !kind_ok {
+                        r.fail(concat!("C14:protocol:", $api), $api, format!("s={:?} delim={:?}", s, d), format!("pieces={:?} then {:?} (fails again: {})", got, err, again), format!("pieces={:?} then Err{}", want, if $must_be_exhausted { "(SplitExhausted)" } else { "" }));
+                    }
+                    if want.len() >= 2 {
+                        r.nt(&($api, s, d));
+                    }
+                }};
+            }
+            proto!("split", split, s.split(d).collect(), true);
+            proto!("rsplit", rsplit, s.rsplit(d).collect(), true);
+            proto!("split_terminator", split_terminator, {
+                let mut v: Vec<&str> = s.split(d).collect();
+                v.pop();
+                v
+            }, false);
+            proto!("rsplit_terminator", rsplit_terminator, {
+                let mut v: Vec<&str> = s.rsplit(d).collect();
+                v.pop();
+                v
+            }, false);
+        }
+        // char delimiters
+        for c in [',', 'ñ'] {
+            let mut buf = [0u8; 4];
+            let d: &str = c.encode_utf8(&mut buf);
+            let want: Vec<&str> = s.split(d).collect();
+            let mut got: Vec<&str> = Vec::new();
+            let mut p = Parser::new(s);
+            let mut err = None;
+            for _ in 0..40 {
+                match p.split(c) {
+                    Ok((x, np)) => {
+                        got.push(x);
+                        p = np;
+                    }
+                    Err(e) => {
+                        err = Some(e.kind());
+                        break;
+                    }
+                }
+            }
+            r.evn("protocol:split(char)", got.len() as u64 + 1);
+            if got != want || err != Some(ErrorKind::SplitExhausted) {
+                r.fail("C14:protocol:split(char)", "split", format!("s={:?} delim={:?}", s, c), format!("pieces={:?} then {:?}", got, err), format!("pieces={:?} then Err(SplitExhausted)", want));
+            }
+        }
+        if i == 300 {
+            r.sample(|| format!("protocol s={:?} x delimiters {:?}", s, delims));
+        }
+    })
+}
+
+pub fn run(cfg: &Cfg, c14: bool) -> (&'static str, Report, String, String) {
+    let alpha = ["a", " ", ",", "ñ", "1", "-"];
+    let (maxc, depth) = (cfg.by(1, 3, 4), cfg.by(2, 3, 3));
+    let ss = strings_upto(&alpha, maxc);
+    let bases: &[usize] = if c14 { &[0] } else if cfg.miri() { &[7] } else { &[0, 7] };
+    let mut rep = par_for(cfg, ss.len(), |i, r| {
+        for &base in bases {
+            let mut cx = Ctx { s: &ss[i], base, c14, hist: Vec::new() };
+            let p = if base == 0 { Parser::new(&ss[i]) } else { Parser::with_start_offset(&ss[i], base) };
+            if !c14 {
+                invariants(r, &cx, p);
+            }
+            dfs(r, &mut cx, p, false, depth);
+        }
+        if i == 100 {
+            r.sample(|| format!("s={:?}: every history of depth <= {} over {} ops, e.g. {:?}", ss[i], depth, OPS.len(), &OPS[20..23]));
+        }
+    });
+    // long random histories
+    let nrand = cfg.by(10, 20_000, 200_000);
+    let walpha = ["a", " ", ",", "ñ", "1", "-", "2", "\t", "個", "true", "0", ",,"];
+    rep.merge(par_for(cfg, nrand, |i, r| {
+        let mut rng = Rng::new(cfg.seed.wrapping_mul(999_983).wrapping_add(i as u64));
+        let s = random_string(&mut rng, &walpha, cfg.by(8, 24, 24));
+        let base = *rng.pick(&[0usize, 1, 7, 1000]);
+        let mut cx = Ctx { s: &s, base: if c14 { 0 } else { base }, c14, hist: Vec::new() };
+        let mut p = if cx.base == 0 { Parser::new(&s) } else { Parser::with_start_offset(&s, cx.base) };
+        let mut exh = false;
+        let n = 1 + rng.below(cfg.by(10, 40, 40));
+        let mut trail: Vec<Op> = Vec::new();
+        for _ in 0..n {
+            let op = *rng.pick(OPS);
+            cx.hist = trail.clone();
+            if let Some((np, ne)) = step(r, &mut cx, p, exh, op) {
+                p = np;
+                exh = ne;
+                trail.push(op);
+            }
+        }
+        if trail.len() >= 4 {
+            r.nt(&(&s, base, format!("{:?}", trail)));
+        }
+        if i == 5 {
+            r.sample(|| format!("random history s={:?} base={} successful ops={:?}", s, base, trail));
+        }
+    }));
+    if c14 {
+        rep.merge(protocols(cfg));
+        (
+            "C14",
+            rep,
+            format!("all histories of depth <= {} over {} concrete ops on all {} strings (<= {} chars over {{a,' ',',',ñ,1,-}}); {} random histories (<= 40 ops, strings <= 24 pieces); pure split/rsplit/split_terminator/rsplit_terminator protocols over all strings <= {} chars over {{a,',',ñ}} x 7 str + 2 char delimiters", depth, OPS.len(), ss.len(), maxc, nrand, cfg.by(3, 6, 7)),
+            "one evaluation = one Parser step compared with the free konst::string function applied to the previous remainder (new remainder by value and position, piece/value handed out, success iff the free function finds something; split-family ops against a sequential model with the sticky `last piece handed out` flag), or one step of a pure split protocol compared with str::split/rsplit (then SplitExhausted, and failing again); non-trivial = distinct (string,history) whose last op shrinks an already shrunk remainder, protocols with >= 2 pieces".into(),
+        )
+    } else {
+        (
+            "C13",
+            rep,
+            format!("all histories of depth <= {} over {} concrete ops on all {} strings (<= {} chars over {{a,' ',',',ñ,1,-}}) from Parser::new and Parser::with_start_offset(_, 7); {} random histories (<= 40 ops, strings <= 24 pieces, base in {{0,1,7,1000}})", depth, OPS.len(), ss.len(), maxc, nrand),
+            "one evaluation = one Parser step followed by the invariant monitor (base <= start <= end <= base+len, both on char boundaries, original[start-base..end-base] is the remainder by value and address, len/is_empty agree) or, for a failing step, the error monitor (offset = start offset for from-start ops / end offset for from-end ops of the parser it was called on, direction names that end); non-trivial = distinct (string,base,history) whose last op shrinks an already shrunk remainder".into(),
+        )
+    }
+}
